@@ -34,7 +34,7 @@ def gen(rng, budget, tier):
             # one job configuration, several logins in a row against ONE server value: job names shared by the
             # schedule and the continuous list, allow lists that differ — anything a server keeps between
             # handshakes (caches keyed too coarsely, leftovers of a rejected attempt) shows here
-            ips = ["10.0.0.1", "10.0.0.2", "127.0.0.1"]
+            ips = ["10.0.0.1", "10.0.0.2", "127.0.0.1", "10.0.0.10", "10.0.0.100", "10.0.0.21", "127.0.0.10"]
             jn = ["job1", "job2", "j3"]
             jobs = []
             for _ in range(rng.choice([1, 2, 3, 4])):
@@ -48,7 +48,7 @@ def gen(rng, budget, tier):
             yield f"c09.pwseq {';'.join(jobs)} {','.join(atts)}"
         elif r < 0.9:
             names = [b"job1", b"job2", b"DTAIL-HEALTH", b""]
-            ips = ["10.0.0.1", "10.0.0.2", "127.0.0.1"]
+            ips = ["10.0.0.1", "10.0.0.2", "127.0.0.1", "10.0.0.10", "10.0.0.100", "10.0.0.21", "127.0.0.10"]
             jobs = []
             for _ in range(rng.choice([0, 1, 2, 3])):
                 allow = "+".join(rng.sample(ips, rng.randrange(0, 3)))
